@@ -126,8 +126,8 @@ PROPS["C06"] = dict(
         "c06_register_one_descriptor_step": dict(cap=1800),
         "c06_register_two_descriptors_new_then_known": dict(cap=2400),
         "c06_register_two_descriptors_other_shapes": dict(cap=3600, tier="thorough"),
-        "c06_unregister_live_collector_step": dict(cap=2400),
-        "c06_unregister_unknown_collector_step": dict(cap=2400),
+        "c06_unregister_live_collector_step": dict(cap=3600, tier="thorough"),
+        "c06_unregister_unknown_collector_step": dict(cap=3600),
         "c06_same_collector_twice_and_gather": dict(cap=5400, tier="thorough"),
     },
     functions=["RegistryCore::register", "RegistryCore::unregister", "RegistryCore::gather"],
@@ -257,6 +257,7 @@ PROPS["C10"] = dict(
     harnesses={
         "c10_racing_first_requests_share_the_child": dict(cap=2400),
         "c10_remove_then_recreate_starts_from_zero": dict(cap=2400),
+        "c10_remove_missing_child_is_an_error": dict(cap=1200),
         "c10_reset_then_recreate_starts_from_zero": dict(cap=2400, tier="thorough"),
         "c10_lookup_vs_remove_and_recreate": dict(cap=2400),
     },
@@ -301,15 +302,16 @@ PROPS["C04"] = dict(
     hosts={"encoder_text": ["c04.rs"]},
     jobs=5,
     harnesses={
-        "c04_escape_string_1_byte": dict(cap=1500),
+        "c04_escape_string_1_byte": dict(cap=5400, tier="thorough"),
         "c04_escape_string_2_bytes": dict(cap=3600, tier="thorough"),
         "c04_escape_string_3_bytes": dict(cap=3600, tier="thorough"),
         "c04_escape_string_multibyte": dict(cap=3600, tier="thorough"),
         "c04_write_sample_layout": dict(cap=5400, tier="thorough"),
         "c04_write_sample_no_labels": dict(cap=1800),
-        "c04_encode_histogram_family_layout": dict(cap=2400),
-        "c04_encode_two_families_order_and_agreement": dict(cap=2400),
-        "c04_encode_summary_family_layout": dict(cap=2400),
+        "c04_encode_histogram_family_layout": dict(cap=7200, tier="thorough"),
+        "c04_encode_two_families_order_and_agreement": dict(cap=7200, tier="thorough"),
+        "c04_encode_summary_family_layout": dict(cap=7200, tier="thorough"),
+        "c04_entry_points_agree_and_append": dict(cap=7200, tier="thorough"),
     },
     functions=["text::escape_string", "text::label_pairs_to_text", "text::write_sample"],
     bounds="escape_string: every string of 2 (quick) / 3 (thorough) bytes over {backslash, quote, LF, CR, letter} and the 2-byte character e-acute next to each class, both modes; write_sample: 2 labels + additional label with 1-byte symbolic values, every f64 bit pattern as value (marker rendering), every i64 timestamp; unwind 10-20",
